@@ -358,6 +358,7 @@ func (it *Interp) snapshotForReplay(m smt.Model) {
 	if m == nil {
 		return
 	}
+	it.rekeyForRealHash(m)
 	it.patchCRC(m)
 	cells := it.ckptFS
 	if cells == nil {
